@@ -172,6 +172,7 @@ type Result struct {
 	Harness      string
 	Stats        Stats
 	Failures     []Failure
+	FailureCounts map[string]int
 	Inconclusive []string
 	BoundExceed  []string
 	Unsupported  []string
@@ -200,6 +201,7 @@ type explorePool struct {
 	cfg     Config
 	entry   *ssa.Function
 	started int64
+	failCount map[string]int
 }
 
 func (m *Machine) Explore(entry *ssa.Function, cfg Config) *Result {
@@ -219,10 +221,11 @@ func (m *Machine) Explore(entry *ssa.Function, cfg Config) *Result {
 		cfg.Budgets.MaxDecisions = 4000
 	}
 	if cfg.MaxFailures == 0 {
-		cfg.MaxFailures = 200
+		cfg.MaxFailures = 600
 	}
 	res := &Result{Harness: entry.String(), Reached: map[string]int64{}, Functions: map[string]bool{}, Intrinsics: map[string]bool{}, Assumptions: map[string]bool{}}
-	p := &explorePool{res: res, m: m, cfg: cfg, entry: entry}
+	p := &explorePool{res: res, m: m, cfg: cfg, entry: entry, failCount: map[string]int{}}
+	res.FailureCounts = map[string]int{}
 	p.cond = sync.NewCond(&p.mu)
 	p.queue = []WorkItem{{}}
 	t0 := time.Now()
@@ -286,9 +289,13 @@ func (p *explorePool) worker(id int) {
 		pr := p.m.runPath(ex, p.entry, item, funcs)
 		p.mu.Lock()
 		r := p.res
-		r.Failures = append(r.Failures, pr.failures...)
-		if len(r.Failures) >= p.cfg.MaxFailures {
-			p.stop = true
+		for _, f := range pr.failures {
+			key := f.Kind + "|" + f.Label + "|" + fmt.Sprint(f.Choices)
+			p.failCount[key]++
+			r.FailureCounts[key]++
+			if p.failCount[key] <= 3 && len(r.Failures) < p.cfg.MaxFailures {
+				r.Failures = append(r.Failures, f)
+			}
 		}
 		for k := range pr.reached {
 			r.Reached[k]++
